@@ -752,12 +752,16 @@ namespace fsh
                 {
                     spl_obj.reset();
                     spl_sig.clear();
+                    // constructor or the factory function, by the parity of the grid size
+                    const bool factory = grid.size() % 2 == 1;
                     if (kk == "s")
-                        spl_obj = std::make_unique<eroder_t>(*graph, ks, m, nn, tol);
+                        spl_obj = factory ? std::make_unique<eroder_t>(fs::make_spl_eroder(*graph, ks, m, nn, tol))
+                                          : std::make_unique<eroder_t>(*graph, ks, m, nn, tol);
                     else
                     {
                         arr ka = make_arr(kv);
-                        spl_obj = std::make_unique<eroder_t>(*graph, ka, m, nn, tol);
+                        spl_obj = factory ? std::make_unique<eroder_t>(fs::make_spl_eroder(*graph, ka, m, nn, tol))
+                                          : std::make_unique<eroder_t>(*graph, ka, m, nn, tol);
                     }
                     spl_sig = sig.str();
                     os << "O spl_new 1\n";
